@@ -395,7 +395,7 @@ void verif_run(verif::Args const& a, verif::Evidence& ev)
               "-> every destination channel equals the written-out sum under the policy (64-bit exact for integer combinations, 1e-5 relative for float), border outputs untouched / zero for output_*. "
               "conv2d: detail::convolve_2d against the zero-extended 2-D sum for kernels 1..6 with every centre. extend: extend_row / extend_col / extend_boundary x {padded, zero, constant} x 0..4 pixels on 0..7 x 0..7 views. "
               "non-trivial (conv): the kernel is longer than 1 and the image non-empty; distinct = all keys but the content seed.";
-    int n = th ? 500000 : 30000;
+    int n = th ? 1500000 : 30000;
     verif::rc_search(ev, a, "conv", n, 60, gen_conv, run_conv, [](Case const& c) { return c.get("ksize") > 1 && c.get("w") > 0 && c.get("h") > 0; }, {"combo", "fn", "fixed", "opt", "ksize", "centre", "w", "h", "margin", "guard", "defopt"});
     verif::rc_search(ev, a, "conv2d", n / 6, 60, gen_conv2d, run_conv2d, [](Case const& c) { return c.get("w") > 0 && c.get("h") > 0; }, {"combo", "ksize", "centre", "centre2", "w", "h", "guard"});
     verif::rc_search(ev, a, "extend", n / 6, 60, gen_ext, run_ext, [](Case const& c) { return c.get("w") > 0 && c.get("h") > 0 && c.get("n") > 0; }, {"combo", "which", "opt", "n", "w", "h", "guard"});
